@@ -25,6 +25,7 @@ Theorem C12_source_shape :
   GenC12.downstream_prefix_shape = true /\ GenC12.downstream_marked = true /\
   GenC12.toplevel_marked = true /\ GenC12.worker_cache_shape = true /\
   GenC12.worker_reload_clears_cache = true /\
+  GenC12.reload_clear_before_signal = true /\ GenC12.reload_signal_before_clear = false /\
   param_names 3 = ["SampleRate"; "ClearFrequency"; "MaxKeys"; "UseTraceLength"]%string /\
   param_names 4 = ["GoalSampleRate"; "AdjustmentInterval"; "Weight"; "AgeOutValue"; "BurstMultiple";
                    "BurstDetectionDelay"; "MaxKeys"; "UseTraceLength"]%string /\
@@ -84,6 +85,37 @@ Theorem C12_workers_agree : forall s w1 w2 name ops,
   snd (wstep s2 (WGet w2 name)) = snd (wstep s (WGet w1 name)).
 Proof. exact workers_agree. Qed.
 Print Assumptions C12_workers_agree.
+
+(* The collector's reload handler, in the order found in the source (ClearDynsamplers, then the
+   reload signal to every worker — extracted from collect.go reloadConfigs): whatever the workers do
+   between the handler's two steps and afterwards, any two workers that have run their reload branch
+   and then need the sampler for a key get the same instances.  The proof computes the extracted
+   order; with the steps swapped in the source it no longer compiles. *)
+Theorem C12_after_reload_workers_agree : forall s c early mid1 mid2 w1 w2 name,
+  no_reload early -> no_reload mid1 -> no_reload mid2 ->
+  let s0 := wstate_after s (real_reload_schedule c early mid1) in
+  let sA := fst (wstep s0 (WWorkerReload w1)) in
+  let r1 := wstep sA (WGet w1 name) in
+  let sB := fst (wstep (wstate_after (fst r1) mid2) (WWorkerReload w2)) in
+  snd (wstep sB (WGet w2 name)) = snd r1.
+Proof. exact real_reload_workers_agree. Qed.
+Print Assumptions C12_after_reload_workers_agree.
+
+(* With the order swapped (signals first, ClearDynsamplers last) the statement is false: a worker
+   that runs its reload branch and re-creates its sampler between the two steps obtains the old
+   generation's instance and keeps it (last two outputs: worker 0 on instance 0, worker 1 on
+   instance 1), while the same worker activity under the real order ends with both on instance 1. *)
+Theorem C12_signal_before_clear_refuted :
+  let out := wrun {| w_f := finit; w_cfg := swap_cfg; w_cache := [] |} swap_history in
+  nth 7 out [] = [Some 0%N] /\ nth 8 out [] = [Some 1%N] /\
+  let ok := wrun {| w_f := finit; w_cfg := swap_cfg; w_cache := [] |}
+                 ([WGet 0 (u "prod"); WGet 1 (u "prod")] ++
+                  reload_schedule true swap_cfg [WGet 0 (u "prod")]
+                                  [WWorkerReload 0; WGet 0 (u "prod"); WWorkerReload 1; WGet 1 (u "prod")] ++
+                  [WGet 0 (u "prod"); WGet 1 (u "prod")]) in
+  nth 8 ok [] = [Some 1%N] /\ nth 9 ok [] = [Some 1%N].
+Proof. exact signal_first_refuted. Qed.
+Print Assumptions C12_signal_before_clear_refuted.
 
 (* The pinned tree's key ("%s:%s:%d:%v" of prefix, type, one rate, sorted fields) was not
    injective: definitions differing in MaxKeys / UseTraceLength, field lists ["a b"] vs ["a";"b"],
